@@ -32,6 +32,7 @@ import (
 	"github.com/sarchlab/mgpusim/v4/amd/insts"
 	"github.com/sarchlab/mgpusim/v4/amd/kernels"
 	"github.com/sarchlab/mgpusim/v4/amd/protocol"
+	"github.com/sarchlab/mgpusim/v4/amd/sampling"
 	"github.com/sarchlab/mgpusim/v4/amd/timing/cu"
 
 	ab "verifharness/akitabench"
@@ -56,13 +57,15 @@ type WGSpec struct {
 
 // MemSpec scripts the memory side.
 type MemSpec struct {
-	V     []int  `json:"v,omitempty"`     // latency of the i-th vector request (then VDef)
-	VDef  [2]int `json:"vdef"`            // [lo, hi]
-	S     []int  `json:"s,omitempty"`     // latency of the i-th scalar request
-	SDef  [2]int `json:"sdef"`            //
-	I     [2]int `json:"i"`               // instruction fetch
-	Seed  int64  `json:"seed"`            //
-	Early bool   `json:"early,omitempty"` // effect at arrival instead of anywhere in [arrival, response]
+	V     []int    `json:"v,omitempty"`     // latency of the i-th vector request (then VDef)
+	VDef  [2]int   `json:"vdef"`            // [lo, hi]
+	S     []int    `json:"s,omitempty"`     // latency of the i-th scalar request
+	SDef  [2]int   `json:"sdef"`            //
+	I     [2]int   `json:"i"`               // instruction fetch
+	Seed  int64    `json:"seed"`            //
+	Early bool     `json:"early,omitempty"` // effect at arrival instead of anywhere in [arrival, response]
+	VHold [][2]int `json:"vhold,omitempty"` // cycle windows in which the vector memory side takes no request
+	SHold [][2]int `json:"shold,omitempty"` // same for the scalar memory side
 }
 
 // Scenario is one case.
@@ -75,8 +78,9 @@ type Scenario struct {
 	AceHold   [][2]int     `json:"acehold,omitempty"` // cycle windows in which the dispatcher does not take completions
 	Vals      bool         `json:"vals,omitempty"`    // compare final memory with emulation
 	NoEmu     bool         `json:"noemu,omitempty"`
-	Sys       string       `json:"sys,omitempty"`   // "" component level; "r9nano": system level
-	Bench     string       `json:"bench,omitempty"` // system level: a shipped benchmark instead of generated kernels
+	Sampled   bool         `json:"sampled,omitempty"` // wavefront sampling on, prediction stable: handleWfCompletionEvent path
+	Sys       string       `json:"sys,omitempty"`     // "" component level; "r9nano": system level
+	Bench     string       `json:"bench,omitempty"`   // system level: a shipped benchmark instead of generated kernels
 	BenchArgs []int        `json:"benchargs,omitempty"`
 }
 
@@ -288,9 +292,10 @@ type stats struct {
 }
 
 type runner struct {
-	rec *ab.Recorder
-	st  *stats
-	mu  sync.Mutex
+	rec   *ab.Recorder
+	st    *stats
+	mu    sync.Mutex
+	child bool
 }
 
 func (r *runner) emit(e string, f ab.Rec) {
@@ -462,6 +467,16 @@ func (r *runner) runTiming(ce *caseEnv, idx int, ref *memImage, paths map[int][]
 		}
 	}()
 
+	if sc.Sampled {
+		// what -wf-sampling plus 1024+ collected wavefronts with a steady run time give: a stable prediction
+		se := sampling.NewSampledEngine(16, 0.5, true)
+		for i := 0; i < 1024+64; i++ {
+			se.Collect(sim.VTimeInSec(float64(i)*1e-9), sim.VTimeInSec(float64(i+100)*1e-9))
+		}
+		sampling.SampledEngineInstance = se
+		*sampling.SampledRunnerFlag = true
+		defer func() { *sampling.SampledRunnerFlag = false }()
+	}
 	eng := ab.NewEngine()
 	dc := &dummyComp{sim.NewComponentBase("Env")}
 	instMem := sim.NewPort(dc, 1, 1, "Env.InstMem")
@@ -593,23 +608,25 @@ func (r *runner) runTiming(ce *caseEnv, idx int, ref *memImage, paths map[int][]
 		}
 		queue = rest
 	}
-	held := func(cyc int) bool {
-		for _, h := range sc.AceHold {
+	heldIn := func(w [][2]int, cyc int) bool {
+		for _, h := range w {
 			if cyc >= h[0] && cyc < h[1] {
 				return true
 			}
 		}
 		return false
 	}
-	holdEnd := func(cyc int) int {
+	holdEndIn := func(w [][2]int, cyc int) int {
 		e := cyc + 1
-		for _, h := range sc.AceHold {
+		for _, h := range w {
 			if cyc >= h[0] && cyc < h[1] && h[1] > e {
 				e = h[1]
 			}
 		}
 		return e
 	}
+	held := func(cyc int) bool { return heldIn(sc.AceHold, cyc) }
+	holdEnd := func(cyc int) int { return holdEndIn(sc.AceHold, cyc) }
 	order := make([]*builtWG, len(ce.wgs))
 	copy(order, ce.wgs)
 	sort.SliceStable(order, func(i, j int) bool { return order[i].at < order[j].at })
@@ -683,6 +700,12 @@ func (r *runner) runTiming(ce *caseEnv, idx int, ref *memImage, paths map[int][]
 		if u.ToACE.PeekOutgoing() != nil {
 			upd(holdEnd(cyc))
 		}
+		if u.ToVectorMem.PeekOutgoing() != nil {
+			upd(holdEndIn(sc.Mem.VHold, cyc))
+		}
+		if u.ToScalarMem.PeekOutgoing() != nil {
+			upd(holdEndIn(sc.Mem.SHold, cyc))
+		}
 		if next < 0 {
 			break
 		}
@@ -693,8 +716,13 @@ func (r *runner) runTiming(ce *caseEnv, idx int, ref *memImage, paths map[int][]
 		}
 		eng.RunUntil(ab.Cycle(cyc))
 		accept("i", u.ToInstMem, cyc)
-		accept("s", u.ToScalarMem, cyc)
-		accept("v", u.ToVectorMem, cyc)
+		// hold windows: the memory side does not take requests (back-pressure on the CU's ports)
+		if !heldIn(sc.Mem.SHold, cyc) {
+			accept("s", u.ToScalarMem, cyc)
+		}
+		if !heldIn(sc.Mem.VHold, cyc) {
+			accept("v", u.ToVectorMem, cyc)
+		}
 		if !held(cyc) {
 			for u.ToACE.RetrieveOutgoing() != nil {
 			}
@@ -799,6 +827,8 @@ func main() {
 	scen := flag.String("scen", "", "JSON file with a list of scenarios")
 	out := flag.String("out", "trace.ndjson", "trace output")
 	list := flag.Bool("list", false, "print the listing of every kernel")
+	child := flag.Bool("child", false, "internal: run shipped benchmarks in this process")
+	caseNo := flag.Int("case", 0, "internal: case number of the first scenario")
 	flag.Parse()
 	var cases []Scenario
 	b, err := os.ReadFile(*scen)
@@ -833,9 +863,9 @@ func main() {
 	}
 	w := bufio.NewWriterSize(f, 1<<20)
 	st := &stats{}
-	r := &runner{rec: ab.NewRecorder(w), st: st}
+	r := &runner{rec: ab.NewRecorder(w), st: st, child: *child}
 	for i := range cases {
-		r.runCase(i, &cases[i])
+		r.runCase(*caseNo+i, &cases[i])
 	}
 	w.Flush()
 	f.Close()
